@@ -58,7 +58,7 @@ def work(task):
         return work_constants(task, part)
     ent = task["entry"]
     rng = Rng("%s/C09/%s/%s" % (task["seed"], b, ty))
-    judge_registry(part, b, ty, ent)
+    judge_registry(part, b, ty, ent, decl=task.get('decl'))
     # lookups
     cases = []
     syms = [u["symbol"] for u in ent["units"]]
